@@ -87,7 +87,7 @@ pub fn run(args: &[String]) -> i32 {
         let mut cmd: std::collections::HashMap<String, Sender<Value>> = std::collections::HashMap::new();
         let mut cont: std::collections::HashMap<String, Sender<()>> = std::collections::HashMap::new();
         let mut handles = vec![];
-        for p in ["w", "f", "c", "k", "r", "d"] {
+        for p in ["w", "f", "c", "k", "r", "d", "c2"] {
             let (ctx, crx) = channel::<Value>();
             let (gtx, grx) = channel::<()>();
             cmd.insert(p.to_string(), ctx);
@@ -139,6 +139,18 @@ pub fn run(args: &[String]) -> i32 {
                                 tree.flush(&lock, 0).map(|_| ()).map_err(|e| format!("err:{e:?}"))
                             }
                             "major" => tree.major_compact(u64::MAX, 0).map_err(|e| format!("err:{e:?}")),
+                            "scripted" => {
+                                let ids: Vec<u64> = c["ids"].as_array().map_or(vec![], |a| a.iter().filter_map(Value::as_u64).collect());
+                                let dest = c["dest"].as_u64().unwrap_or(6) as u8;
+                                let choice = lsm_tree::verif::ScriptedChoice::Merge {
+                                    table_ids: ids,
+                                    dest_level: dest,
+                                    canonical_level: dest,
+                                    target_size: u64::MAX,
+                                };
+                                tree.compact(Arc::new(lsm_tree::verif::Scripted(choice)), 0)
+                                    .map_err(|e| format!("err:{e:?}"))
+                            }
                             "clear" => tree.clear().map_err(|e| format!("err:{e:?}")),
                             "droprange" => tree.drop_range::<&[u8], _>(..).map_err(|e| format!("err:{e:?}")),
                             x => Err(format!("skip:unknown {x}")),
@@ -161,7 +173,7 @@ pub fn run(args: &[String]) -> i32 {
             let step = stp["step"].as_str().unwrap_or("").to_string();
             let starts = matches!(
                 (p.as_str(), step.as_str()),
-                ("w", "write") | ("w", "alloc") | ("f", "rotate") | ("r", "rotate") | ("f", "collect") | ("c", "choose") | ("k", "clear") | ("d", "droprange")
+                ("w", "write") | ("w", "alloc") | ("f", "rotate") | ("r", "rotate") | ("f", "collect") | ("c", "choose") | ("c2", "choose") | ("k", "clear") | ("d", "droprange")
             );
             let mut absent = false;
             if p == "w" && step == "write" && stp["probe"].as_bool().unwrap_or(false) {
@@ -256,6 +268,30 @@ pub fn run(args: &[String]) -> i32 {
                     "alloc" => json!({"op": "alloc"}),
                     "rotate" => json!({"op": "rotate"}),
                     "collect" => json!({"op": "flush"}),
+                    "choose" if p == "c2" || v["cscripted"].as_bool().unwrap_or(false) => {
+                        // an ordinary compaction with a scripted choice computed by the model's
+                        // rule from the state at this instant: c2 = every L0 table into L1,
+                        // c = every table that is not hidden into the last level
+                        let st = sess.lock().expect("lock").project();
+                        let hidden: Vec<u64> = st["hidden"].as_array().map_or(vec![], |a| a.iter().filter_map(Value::as_u64).collect());
+                        let lv = st["hist"].as_array().and_then(|h| h.last()).map_or(json!([]), |x| x["lv"].clone());
+                        let mut ids: Vec<u64> = vec![];
+                        for (li, level) in lv.as_array().cloned().unwrap_or_default().iter().enumerate() {
+                            if p == "c2" && li != 0 {
+                                continue;
+                            }
+                            for run in level.as_array().cloned().unwrap_or_default() {
+                                for t in run.as_array().cloned().unwrap_or_default() {
+                                    if let Some(id) = t.as_u64() {
+                                        if !hidden.contains(&id) {
+                                            ids.push(id);
+                                        }
+                                    }
+                                }
+                            }
+                        }
+                        json!({"op": "scripted", "ids": ids, "dest": if p == "c2" { 1 } else { 6 }})
+                    }
                     "choose" => json!({"op": "major"}),
                     "droprange" => json!({"op": "droprange"}),
                     _ => json!({"op": "clear"}),
